@@ -9,6 +9,7 @@ package main
 //     literal -> iPAddress, otherwise the string itself) - or exactly the one impersonated identity,
 //     and then only if the caller is a trusted node account whose pod (matching UID and service
 //     account) runs on a node that also runs a pod of the impersonated namespace/service account;
+//   - its subject CommonName is empty or the first of those identities (never CSR content);
 //   - it is not a CA certificate, binds the CSR's public key, NotAfter <= signer NotAfter,
 //     lifetime <= max TTL (when default <= max is configured), and is not issued by an expired signer;
 //   - malformed input gives an error, never a crash, never a certificate.
@@ -179,6 +180,9 @@ func oracleIssue(in, outp string) {
 		l := res.leaf
 		if l.sanCount != 1 || strings.Join(l.sans, ",") != strings.Join(want, ",") {
 			fail("san-exact", "want="+strings.Join(want, ",")+" "+line)
+		}
+		if l.cn != "" && (len(expected) == 0 || l.cn != expected[0]) {
+			fail("subject-cn-not-an-identity", line)
 		}
 		if l.isCA {
 			fail("never-ca", line)
